@@ -67,3 +67,15 @@ Definition chk_mime (c : option str * (str * (str * (str * str)))) : bool :=
   let '(m, (h, (w, (g, s)))) := c in
   str_eqb (http_adjust m) h && str_eqb (wap_adjust m) w && str_eqb (gemini_adjust m) g &&
   str_eqb (gemini_adjust m) s.
+
+(* the conclusion of the C06 view theorems on the real code: ((server_name, server_port), entry),
+   what harness/pgsite.py reads off the real one-entry listing in Gopher, Gopher+, HTTP, WAP,
+   Gemini, Spartan (None: not exactly one item, or the page could not be read).  Whenever the
+   hypothesis entry_wf holds, all six must be `view` of the entry. *)
+Definition chk_wf_views (c : ((str * Z) * entry) * list (option vitem)) : bool :=
+  let '(((sn, sp), e), vs) := c in
+  if entry_wf sn sp e then forallb (fun v => opt_eqb vitem_eqb v (view sn sp e)) vs
+  else true.
+(* how many of the cases satisfy the hypothesis (reported as coverage) *)
+Definition is_wf_case (c : ((str * Z) * entry) * list (option vitem)) : bool :=
+  let '(((sn, sp), e), _) := c in negb (entry_wf sn sp e).
